@@ -36,7 +36,7 @@ ASSUMPTIONS = ["fresh twin is built through the public constructor from the memb
 
 
 def bounds(tier):
-    return {"bfs_depth": 2 if tier == "quick" else 4, "alphabet": len(alphabet.OPS), "registers": 2, "seeds": 3}
+    return {"bfs_depth": 2 if tier == "quick" else 4, "alphabet": len(alphabet.OPS), "registers": 2, "seeds": "3 fresh + the same 3 after every query was asked once"}
 
 
 # ------------------------------------------------------------------------------------------
@@ -263,6 +263,8 @@ PRODUCERS = {
     "ds_rename_dup": lambda r: _via_ds(r, lambda ds: ds.rename_axes({ds.dims[0]: ds.dims[1]})),
     "ds_set_axis_name_dup": lambda r: _via_ds(r, lambda ds: ds.set_axis(name=ds.dims[1], axis=0)),
     "ds_dims_perm": lambda r: _via_ds(r, lambda ds: setattr(ds, "dims", tuple(ds.dims[1:]) + tuple(ds.dims[:1]))),
+    "diff": lambda r: r.diff(axis=0), "diff_fwd": lambda r: r.diff(axis=0, scheme="forward"), "label_slice_open": lambda r: r[py(r.axes[0].values[1]):],
+    "argmax0": lambda r: r.argmax(axis=0) if r.ndim > 1 else None, "dropna": lambda r: r.dropna(axis=0), "compress": lambda r: r.compress([True] * (r.shape[0] - 1) + [False], axis=0),
     "neg": lambda r: -r, "mul": lambda r: r * 2, "eq": lambda r: r == r, "copy": lambda r: r.copy(), "newaxis": lambda r: r.newaxis("n", pos=1),
     "dataset": lambda r: Dataset(v=r)["v"], "cumsum": lambda r: r.cumsum(axis=0), "mean_last": lambda r: r.mean(axis=-1), "swapaxes": lambda r: r.swapaxes(0, -1),
     "dimarray": lambda r: DimArray(r), "put_copy": lambda r: r.put(0, 5, indexing="position", inplace=False), "index_list": lambda r: r.take(py(r.axes[0].values)[:2], axis=0),
@@ -476,13 +478,17 @@ def events_list():
 
 class Space(object):
     def initial(self, tier):
-        return [[["seed", k]] for k in sorted(SEEDS)]
+        return [[["seed", k]] for k in sorted(SEEDS)] + [[["seed", k + "*"]] for k in sorted(SEEDS)]
 
     def events(self, hist, tier):
         return events_list()
 
     def run(self, hist):
-        regs = [D.build_impl(SEEDS[hist[0][1]]), None]
+        seed = hist[0][1]
+        regs = [D.build_impl(SEEDS[seed.rstrip("*")]), None]
+        if seed.endswith("*"):            # a 'used' start state: every query of the alphabet has been asked once (caches filled)
+            for q in sorted(QUERIES):
+                call(QUERIES[q], regs[0])
         changed = False
         for n, ev in enumerate(hist[1:]):
             last = n == len(hist) - 2
